@@ -24,7 +24,14 @@ contract("ChangeContents.__init__", source=M + "ChangeContents.__init__", inline
          params={"self": "ChangeContents", "resource": "Resource", "new_contents": "Str", "old_contents": "Opt[Str]"}, defaults={"old_contents": "None"})
 contract("CreateResource.__init__", source=M + "CreateResource.__init__", inline=True, params={"self": "CreateResource", "resource": "Resource"})
 contract("RemoveResource.__init__", source=M + "RemoveResource.__init__", inline=True, params={"self": "RemoveResource", "resource": "Resource"})
-specfun("dest_of", ["Resource", "Str"], "Str", note="_get_destination_for_move(resource, destination)")
+specfun("abs_path", ["Project", "Str"], "Str", note="project._get_resource_path(name)")
+specfun("is_dir", ["Str"], "Bool", note="os.path.isdir at the time of the call")
+specfun("name_of", ["Resource"], "Str", note="resource.name: last component of the path")
+contract("Project._get_resource_path", abstract=True, pure=True, heap_independent=True, params={"self": "Project", "name": "Str"}, returns="Str", ensures=["result == abs_path(self, name)"])
+contract("os.path.isdir", external=True, pure=True, params={"path": "Str"}, returns="Bool", ensures=["result == is_dir(path)"])
+contract("Resource.name", abstract=True, is_property=True, pure=True, heap_independent=True, params={"self": "Resource"}, returns="Str", ensures=["result == name_of(self)"])
+# moving INTO an existing folder keeps the resource's own name below it; otherwise the destination is the new path itself
+specdef("dest_of", {"r": "Resource", "d": "Str"}, "Str", "ite(is_dir(abs_path(r.project, d)), ite(d != '', d + '/' + name_of(r), name_of(r)), d)")
 contract("MoveResource.__init__", source=M + "MoveResource.__init__", inline=True,
          params={"self": "MoveResource", "resource": "Resource", "new_location": "Str", "exact": "Bool"}, defaults={"exact": "False"},
          modifies=["self.project", "self.resource", "self.new_resource"],
@@ -33,8 +40,8 @@ contract("MoveResource.__init__", source=M + "MoveResource.__init__", inline=Tru
                   "self.new_resource._path == ite(exact, new_location, dest_of(resource, new_location))",
                   "isinstance(self.new_resource, Folder) == isinstance(resource, Folder)"],
          note="inlined into DataToChange.makeMoveResource (exact=True) and verified on its own for both modes")
-contract("_get_destination_for_move", abstract=True, params={"resource": "Resource", "destination": "Str"}, returns="Str",
-         ensures=["result == dest_of(resource, destination)"],
+contract("_get_destination_for_move", source=M + "_get_destination_for_move", params={"resource": "Resource", "destination": "Str"}, returns="Str",
+         modifies=[], raises={}, ensures=["result == dest_of(resource, destination)"],
          note="only reached with exact=False; the reload path passes exact=True")
 
 specdef("is_folder_of", {"r": "Resource"}, "Bool", "isinstance(r, Folder)")
